@@ -46,6 +46,10 @@ const c02Batch = 100
 // one representative per byte class the parser or a built-in handler branches on
 var c02Alphabet = []byte{'@', ':', ' ', '!', ';', '=', '\\', '\x01', 'a', '#', '1'}
 
+// prefixes after which every short byte string is tried as well (family 1b)
+var c02DeepPrefixes = []string{"PRIVMSG #c :", "NOTICE me :", ":n!u@h PRIVMSG me :", ":n!u@h NOTICE #c :", "@a=b :n!u@h PRIVMSG #c :", "@",
+	"CAP * LS :", "CAP me ACK :", "MODE #c ", ":irc.example 353 me = #c :", ":irc.example 324 me #c ", "AUTHENTICATE "}
+
 var c02TokenVerbs = []string{"PRIVMSG", "NOTICE", "PING", "CAP", "AUTHENTICATE", "001", "433", "JOIN", "PART", "KICK", "QUIT", "NICK", "MODE", "TOPIC",
 	"311", "324", "332", "352", "353", "671", "903", "904", "908", "410"}
 
@@ -479,6 +483,41 @@ func c02ProbeJob(name, verb string, src MSrc, tracking bool, maxParams int) Job 
 	}}
 }
 
+// c02AfterSessionJob sends every string prefix+w, |w| <= maxSuffix over the byte alphabet, through sessions (family 1c).
+func c02AfterSessionJob(name, prefix string, maxSuffix int, tracking bool) Job {
+	return Job{Name: name, Cost: 2 + maxSuffix*maxSuffix*maxSuffix, Run: func(jc *JobCtx) *JobResult {
+		e := NewEnum(name)
+		fb := newFailBook(e)
+		var lines []string
+		forEachString(prefix, c02Alphabet, maxSuffix, func(s string) bool { lines = append(lines, s); return true })
+		tk := "T0|"
+		if tracking {
+			tk = "T1|"
+		}
+		nSess := 0
+		for i := 0; i < len(lines); i += c02Batch {
+			j := i + c02Batch
+			if j > len(lines) {
+				j = len(lines)
+			}
+			for _, l := range lines[i:j] {
+				e.Case(tk + l)
+			}
+			c02CheckBatch(fb, "session-bytes", lines[i:j], tracking)
+			nSess++
+			if fb.TooMany() || jc.Expired() {
+				if j < len(lines) {
+					e.Incomplete(fmt.Sprintf("stopped after %d of %d lines", j, len(lines)))
+				}
+				break
+			}
+		}
+		e.Sample(map[string]interface{}{"prefix": prefix, "tracking": tracking, "lines": len(lines), "sessions": nSess, "last": lines[len(lines)-1]})
+		fb.Flush()
+		return e.Done()
+	}}
+}
+
 // ---------------------------------------------------------------- (4): sequences over outcome classes
 
 // c02Class computes the outcome class of one line from a single-line session.
@@ -702,6 +741,16 @@ func c02Jobs(tier string) []Job {
 			jobs = append(jobs, c02BytesJob(fmt.Sprintf("c02/bytes/len<=%d/prefix=%s", maxLen, Q(p)), p, maxLen-2, nil))
 		}
 	}
+	// (1b) the same byte strings behind prefixes that reach the branches for message text, tags, capability and mode lists
+	for _, p := range c02DeepPrefixes {
+		jobs = append(jobs, c02BytesJob(fmt.Sprintf("c02/bytes-after/len<=%d/prefix=%s", maxLen-2, Q(p)), p, maxLen-2, nil))
+	}
+	// (1c) and through sessions, three (quick) / four (thorough) bytes after the prefix
+	for _, p := range c02DeepPrefixes {
+		for _, tr := range []bool{false, true} {
+			jobs = append(jobs, c02AfterSessionJob(fmt.Sprintf("c02/bytes-after-session/len<=%d/prefix=%s/tracking=%v", maxLen-3, Q(p), tr), p, maxLen-3, tr))
+		}
+	}
 	// (2)
 	tokens := append(append([]string(nil), c02TokenVerbs...), c02TokenOther...)
 	for _, t := range tokens {
@@ -745,7 +794,7 @@ func c02Jobs(tier string) []Job {
 func init() {
 	Register(&Prop{
 		ID: "C02",
-		Rule: "(1) every string over {@ : space ! ; = \\ \\x01 a # 1} up to length 6 (quick) / 7 (thorough) and (2) every concatenation of up to 4 / 5 tokens (24 verbs and numerics, 14 punctuation / prefix tokens) given to ParseLine, with Text/Target/Public on every non-nil result; " +
+		Rule: "(1) every string over {@ : space ! ; = \\ \\x01 a # 1} up to length 6 (quick) / 7 (thorough) and (2) every concatenation of up to 4 / 5 tokens (24 verbs and numerics, 14 punctuation / prefix tokens) given to ParseLine, with Text/Target/Public on every non-nil result; (1b) the strings of (1) up to length 4 / 5 after each of 12 prefixes (PRIVMSG / NOTICE text with and without source and tags, CAP LS / ACK lists, MODE, 353, 324, AUTHENTICATE), and (1c) up to length 3 / 4 through sessions with and without tracking; " +
 			"(3) every probe line verb x 0-4 / 0-6 middle parameters over {me,#c,x} (CAP: plus LS, ACK, NAK, at most 4) x 6 trailings (absent, empty, two words, the own nick, a bare minus sign, odd modifier tokens) x 4 sources for the 30 verbs with built-in handling, sent through a connection 100 per session with state tracking off and on, each session closed by PING :sync-end and a well-formed PRIVMSG; (3b) the same for the 8 negotiation-sensitive verbs (plus base64 / non-base64 AUTHENTICATE payloads) with negotiation and SASL PLAIN configured at 3 negotiation stages; " +
 			"(4) every sequence of up to 2 / 3 lines over one representative per outcome class (class = direct parse result, session outcome, warn/error log formats, verbs written in response; computed over a pool of about 8000 candidate lines) through a connection; " +
 			"distinct = distinct line (1,2), distinct (tracking, line) (3), distinct (tracking, sequence) (4)",
